@@ -204,6 +204,7 @@ structure J where
   seenIds : List Nat := []          -- every row id ever observed, any table
   recovered : Bool := false         -- a crash + recovery happened in this case
   tainted : List Bytes := []        -- tables possibly changed by a statement that returned an error
+  unverified : List Bytes := []     -- tables changed by a successful statement since they were last read back
   stopped : Bool := false           -- recovery failed: nothing more to judge
   mustNotExist : List Bytes := []   -- tables whose CREATE TABLE returned an error
   prefixes : List (Bytes × List (List Tuple.Val)) := []   -- row-prefix states of refused multi-row statements
@@ -223,6 +224,12 @@ def parseImplRows (s : String) : List (Nat × List Tuple.Val) :=
 
 def vio (j : J) (sig what : String) : String := s!"VIOLATION case={j.caseId} sig={sig} {what}"
 
+/-- A difference found after a refused statement is blamed on that statement only when the table was
+read back and found right after its last successful change; otherwise the difference may be older
+and stays a plain `contents-differ`. -/
+def taint (j : J) (table : Bytes) : List Bytes :=
+  if j.unverified.contains table then j.tainted else table :: j.tainted
+
 def applyStmt (j : J) (op : String) (stmt : Stmt) (outs : List String) : J × List String :=
   let short := (op.take 300).toString
   let out := outs.head?.getD ""
@@ -234,16 +241,16 @@ def applyStmt (j : J) (op : String) (stmt : Stmt) (outs : List String) : J × Li
   else
   match specStmt j.sdb stmt with
   | some sdb' =>
-    if out == "ok" then ({ j with sdb := sdb', prevSdb := j.sdb, lastStmt := some stmt }, [])
+    if out == "ok" then ({ j with sdb := sdb', prevSdb := j.sdb, lastStmt := some stmt, unverified := table :: j.unverified }, [])
     else
       -- a valid statement was refused; its table may also have been changed
-      ({ j with tainted := table :: j.tainted },
+      ({ j with tainted := taint j table },
         [vio j s!"db:valid-statement-refused:{phase j}" s!"got=[{out}] op=[{short}]"])
   | none =>
     if out == "ok" then (j, [vio j "db:invalid-statement-accepted" s!"op=[{short}]"])
     else
       let isCreate := match stmt with | .createTable _ _ => true | _ => false
-      ({ j with tainted := table :: j.tainted, prefixes := j.prefixes ++ prefixStates j.sdb stmt,
+      ({ j with tainted := taint j table, prefixes := j.prefixes ++ prefixStates j.sdb stmt,
                 mustNotExist := if isCreate && (findTable j.sdb table).isNone then table :: j.mustNotExist else j.mustNotExist }, [])
 
 def judgeSelect (j : J) (table : Bytes) (outs : List String) : J × List String :=
@@ -270,7 +277,7 @@ def judgeSelect (j : J) (table : Bytes) (outs : List String) : J × List String 
           | some old => if old == id then none else some s!"row-id-changed {old}->{id}"
           | none => if j.seenIds.contains id then some s!"row-id-reused {id}" else none
       let v1 := if valsOk then [] else
-        if tainted && (j.prefixes.any fun p => p.1 == table && p.2 == got.map (·.2)) then
+        if (j.prefixes.any fun p => p.1 == table && p.2 == got.map (·.2)) then
           [vio j "db:failed-statement-applied-row-prefix" s!"table={hexOrDash table} want=[{(showRows (t.rows.map fun r => (0, r.vals))).take 200}] got=[{(rowsLine.take 200).toString}]"]
         else if tainted then [vio j "db:failed-statement-changed-table" s!"table={hexOrDash table} want=[{(showRows (t.rows.map fun r => (0, r.vals))).take 300}] got=[{(rowsLine.take 300).toString}]"]
         else [vio j s!"db:contents-differ:{phase j}" s!"table={hexOrDash table} want=[{(showRows (t.rows.map fun r => (0, r.vals))).take 300}] got=[{(rowsLine.take 300).toString}]"]
@@ -281,6 +288,7 @@ def judgeSelect (j : J) (table : Bytes) (outs : List String) : J × List String 
         else got.map fun g => ⟨some g.1, g.2⟩
       let sdb' := j.sdb.map fun x => if x.name == table then { x with rows := newRows } else x
       ({ j with sdb := sdb', seenIds := (j.seenIds ++ ids).eraseDups, tainted := j.tainted.filter (· != table),
+                unverified := j.unverified.filter (· != table),
                 prefixes := j.prefixes.filter (·.1 != table) }, v0 ++ v1 ++ v2 ++ v3)
     | [o] =>
       if o.startsWith "err" || o == "panic" || o == "hang" then
@@ -401,8 +409,8 @@ def judgeLine (j : J) (op : String) (outs : List String) : J × List String :=
     if out == "panic" || out == "hang" then ({ j with stopped := true }, [vio j s!"db:{out}:{phase j}" s!"op=[{short}]"]) else
     match specInsert j.sdb tbl cs rows with
     | some sdb' =>
-      if out == "ok" then ({ j with sdb := sdb', prevSdb := j.sdb, lastStmt := none }, [])
-      else ({ j with tainted := tbl :: j.tainted }, [vio j s!"db:valid-statement-refused:{phase j}" s!"got=[{out}] op=[{short}]"])
+      if out == "ok" then ({ j with sdb := sdb', prevSdb := j.sdb, lastStmt := none, unverified := tbl :: j.unverified }, [])
+      else ({ j with tainted := taint j tbl }, [vio j s!"db:valid-statement-refused:{phase j}" s!"got=[{out}] op=[{short}]"])
     | none =>
       if out == "ok" then (j, [vio j "db:invalid-statement-accepted" s!"op=[{short}]"])
       else
@@ -412,7 +420,7 @@ def judgeLine (j : J) (op : String) (outs : List String) : J × List String :=
             let vals := rows.map fun r => rowOf tb cs r
             let good := (vals.takeWhile (·.isSome)).filterMap id
             (List.range good.length).map fun k => (tbl, tb.rows.map (·.vals) ++ good.take (k + 1))
-        ({ j with tainted := tbl :: j.tainted, prefixes := j.prefixes ++ pre }, [])
+        ({ j with tainted := taint j tbl, prefixes := j.prefixes ++ pre }, [])
   | ["select", table] => judgeSelect j ((bytesOfHex table).getD []) outs
   | ["roots"] => judgeRoots j outs
   | ["capcheck", cap] =>
